@@ -7,7 +7,7 @@ CONSTANT MaxNames
 NameIds == {"n1", "n7", "n8", "n9", "n17", "n40", "p9a", "p9b", "sub", "suf", "pre3"}
 Decls == UNION {[1..n -> NameIds] : n \in 0..MaxNames}
 Universe == {[decl |-> d, undef |-> u, split |-> s, order |-> o] :
-               d \in Decls, u \in {"none", "first", "last", "all"}, s \in {"one", "each"}, o \in {"decl", "reverse", "alias"}}
+               d \in Decls, u \in {"none", "first", "last", "all"}, s \in {"one", "each", "chain"}, o \in {"decl", "reverse", "alias"}}
 VARIABLE c
 Init == c \in Universe
 Next == UNCHANGED c
